@@ -353,7 +353,8 @@ def main():
                 games_f = []
                 for _ in range(4):
                     if cls == "SA":
-                        v = D.random_sa_game(n, rng, sing=rng.choice([(-5, 9), (0, 0), (-9, -1)]))
+                        v = (D.random_sa_game_cancelling(n, rng) if rng.random() < 0.15 else
+                             D.random_sa_game(n, rng, sing=rng.choice([(-5, 9), (0, 0), (-9, -1)])))
                         if rng.random() < 0.25:
                             v = [x / 4 for x in v]
                     else:
